@@ -10,7 +10,10 @@ PROP = {'engine': 'stack',
          'processes; one invocation per faulty generation, then a healthy generation serving 3 invocations. Oracle: host process alive; every '
          "invocation answered within T+2000+100 (+1500 slack); every body is a payload some process posted for that invocation's id, an init-error "
          'payload, a platform error JSON, the timeout text or empty-with-failure-status; once every faulty process is dead at most the first healthy '
-         'invocation fails. Non-trivial: >=1 misuse step and >=1 fault (exit/crash/stall).',
+         'invocation fails. Non-trivial: >=1 misuse step and >=1 fault (exit/crash/stall). Later additions to the alphabet and the schedule: '
+         'half-sent submissions (response / error / init error whose body stops half way), a runtime that serves its invocation, polls again and '
+         "dies while the environment is idle (the caller pauses between invocations), exit notifications delayed by 150-2300 ms, the supervisor's "
+         'Exec returning 2-30 ms after the process started (a process that exits at once is then reported dead before Exec returned).',
  'health': {'has-misuse': 0.5},
  'assumptions': ['fake process supervisor (DESIGN 3.4)', 'error bodies with the error-cause content type are left to C20'],
  'level_text': 'random search over misbehaving client programs against the real composed stack; a host death, a hang, a late or foreign answer, or a '
